@@ -572,7 +572,8 @@ func c15BuildNumbering(tier string) core.Source {
 				res.Inconcl = err.Error()
 				return res
 			}
-			rs, err := peer.StartSender(nil, filepath.Join(dir, "src"), []string{"/"}, []string{"--server", "--sender", "-r"}, 77)
+			// the directory is named twice, so every name occurs twice in the list
+			rs, err := peer.StartSender(nil, filepath.Join(dir, "src"), []string{"/", "/"}, []string{"--server", "--sender", "-r"}, 77)
 			if err != nil {
 				res.Inconcl = err.Error()
 				return res
@@ -581,6 +582,10 @@ func c15BuildNumbering(tier string) core.Source {
 			fl, err := rp.DecodeList(rs.Gen.R, rp.ListOpts{})
 			if err != nil {
 				res.Fail = core.Fail("stream_undecodable", err.Error())
+				return res
+			}
+			if len(fl.Entries) != 2*(len(files)+2) {
+				res.Fail = core.Fail("encoded_list_differs_from_source", fmt.Sprintf("the source directory named twice: %d entries listed, want %d", len(fl.Entries), 2*(len(files)+2)))
 				return res
 			}
 			sorted := rp.SortedIndex(fl.Entries)
@@ -607,6 +612,12 @@ func c15BuildNumbering(tier string) core.Source {
 			os.MkdirAll(dest, 0o755)
 			list := &rp.FList{}
 			list.Entries = append(list.Entries, rp.FEntry{Name: []byte("a"), Len: 0, Mtime: tm.Past, Mode: rp.SIFDIR | 0o755})
+			list.Entries = append(list.Entries, rp.FEntry{Name: []byte("."), Len: 4096, Mtime: tm.Past, Mode: rp.SIFDIR | 0o755, TopDir: true})
+			// the same names sent twice (two source arguments naming the same entries): a duplicate keeps its slot
+			// in the numbering of protocol 27 (the list is sorted, never compacted)
+			for _, n := range []string{"A", "a-", "b"} {
+				list.Entries = append(list.Entries, rp.FEntry{Name: []byte(n), Len: int64(len("content-of:" + n)), Mtime: tm.Past, Mode: rp.SIFREG | 0o644})
+			}
 			list.Entries = append(list.Entries, rp.FEntry{Name: []byte("."), Len: 4096, Mtime: tm.Past, Mode: rp.SIFDIR | 0o755, TopDir: true})
 			// send in a scrambled order; both sides sort
 			for k := len(files) - 1; k >= 0; k-- {
